@@ -34,19 +34,33 @@ RULE = ("random API histories as for C01; after EVERY single op a digest of ever
 
 
 def generate(rng, tier):
+    from props import wsext
+
     n = 40 if tier == "quick" else 1000
-    return [{"ops": W.gen_history(rng.fork(2000 + i), rng.range(10, 24))} for i in range(n)]
+    cases = [{"ops": W.gen_history(rng.fork(2000 + i), rng.range(10, 24))} for i in range(n)]
+    # oracle-only stream: drillhole groups (concatenated storage), two workspaces, cross-workspace copies, listing getters
+    m = 40 if tier == "quick" else 800
+    cases += [{"dh": True, "ops": wsext.gen_dh_history(rng.fork(7000 + i), rng.range(14, 26))} for i in range(m)]
+    return cases
 
 
 def drive_one(case, work):
+    if case.get("dh"):
+        from props import wsext
+
+        return wsext.run_dh_history(case["ops"], work, "c09d")
     return W.run_history(case["ops"], work, "c09", want_digests=True)
 
 
 def case_term(case, obs):
+    if case.get("dh"):
+        return None  # outside the Coq model
     return W.history_case_term(case["ops"], obs["steps"])
 
 
 def model_term(case):
+    if case.get("dh"):
+        return None
     return "trace init %s" % W.clist(W.cop(o) for o in case["ops"])
 
 
@@ -74,6 +88,10 @@ def oracle(case, obs):
     it creates or deletes and types it introduces or stops using; open+close without mutation changes nothing."""
     if "crash" in obs:
         return [{"key": "driver-crash", "what": obs["crash"][:300]}]
+    if case.get("dh"):
+        from props import wsext
+
+        return wsext.oracle_dh(case, obs)
     ops, steps, dig, rp = case["ops"], obs["steps"], obs["digests"], obs["root_path"]
     fails = []
     for i, op in enumerate(ops):
@@ -128,6 +146,8 @@ def oracle(case, obs):
 
 
 def nontrivial(case, obs):
+    if case.get("dh"):
+        return sum(1 for o in case["ops"] if o["op"] in ("hole_data", "dh_update", "dh_rm", "dh_copy")) >= 3
     muts = sum(1 for o in case["ops"] if o["op"] not in ("sweep", "reopen"))
     big = any(len(st["mem"]) >= 4 for st in obs.get("steps", [])) if isinstance(obs, dict) else False
     return muts >= 3 and big
